@@ -204,6 +204,9 @@ private:
     std::unordered_map<std::string, std::deque<std::chrono::steady_clock::time_point>> peer_announce_failure_history_;
     std::unordered_map<std::string, std::chrono::steady_clock::time_point> peer_announce_lockouts_;
     mutable std::recursive_mutex scheduler_mutex_;
+    // A session's key schedule (KeyManager) and the key its transport uses (SessionManager) change
+    // together: a rotation and a handshake for the same peer must not interleave between the two.
+    mutable std::mutex key_install_mutex_;
     struct PowCounters {
         std::atomic<std::uint64_t> handshake_success{0};
         std::atomic<std::uint64_t> handshake_failure{0};
